@@ -79,3 +79,29 @@ package core
 //@   effect $Processed := true
 //@   ensures result == nil ==> $StoreOK && $Published
 //@   ensures !$StoreOK ==> !$Published && result != nil
+
+// ---------------------------------------------------------------------------------------------
+// C15: ingest on request (header exchange). A block obtained by hash is stored only after the header
+// constructed for it was checked against the requested hash - a mis-served block leaves nothing stored
+// ("a failed ingest leaves nothing stored"); on both paths the square stored is the one the constructed
+// header's DAH was computed from, under that header, and a store failure is the caller's failure.
+//@ func (*Exchange).Get
+//@   property C15
+//@   noframe
+//@   requires ce != nil && !$StoreOK && !$PutQ4 && !$PutODS && !$PutErr
+//@   havoc $StoreOK $PutQ4 $PutODS $PutErr
+//@   param .construct: ensures $result1 == nil ==> $result0 != nil && deref($result0.DAH) == dahOf($arg3)
+//@   callpre core.storeEDS: $arg1 == eh && $arg2 == eds && deref(eh.DAH) == dahOf(eds)
+//@   callpre core.storeEDS: bytesEq(hash, eh.Commit.BlockID.Hash)
+//@   callpre core.storeEDS: $arg3 == ce.store && $arg4 == ce.availabilityWindow && $arg5 == ce.archival
+//@   checks err == nil && eds != nil ==> $StoreOK
+
+//@ func (*Exchange).getExtendedHeaderByHeight
+//@   property C15
+//@   noframe
+//@   requires ce != nil && !$StoreOK && !$PutQ4 && !$PutODS && !$PutErr
+//@   havoc $StoreOK $PutQ4 $PutODS $PutErr
+//@   param .construct: ensures $result1 == nil ==> $result0 != nil && deref($result0.DAH) == dahOf($arg3)
+//@   callpre core.storeEDS: $arg1 == eh && $arg2 == eds && deref(eh.DAH) == dahOf(eds)
+//@   callpre core.storeEDS: $arg3 == ce.store && $arg4 == ce.availabilityWindow && $arg5 == ce.archival
+//@   checks err == nil && eds != nil ==> $StoreOK
